@@ -10,7 +10,26 @@ PROP = "C03"
 BIG_DIMS = (2**31 - 1, 2**30 + 7, 3 * 2**29, 2**24 + 1, 2**28)
 
 
-def make_case(rng, quick=True, big=None):
+def spec_peak(tree, inputs, output, size_dict, removed, rows, order=None):
+    """peak of the summed sizes of the live tensors along tree.traverse(order), from the definition:
+    leaf sizes and intermediate sizes recomputed from the network alone (rows = oracle.spec_costs rows)"""
+    leaf = lambda i: oracle.prod(size_dict[ix] for ix in oracle.spec_leaf_indices(inputs, output, i, removed))
+    tot = sum(leaf(i) for i in range(len(inputs)))
+    pk = tot
+    srows = {r[0]: r for r in rows}
+    for p, l, r in tree.traverse(order):
+        tot += srows[p][3]
+        pk = max(pk, tot)
+        for c in (l, r):
+            if len(c) == 1:
+                (i,) = c
+                tot -= leaf(i)
+            else:
+                tot -= srows[c][3]
+    return pk
+
+
+def make_case(rng, quick=True, big=None, prequery=False):
     """big: None, or the name of a numpy integer type -- the dimensions are then handed to the
     implementation as numpy integers of that type and made large enough for per-step products
     beyond 2**63 (the reported costs must still be the exact integers of the definition)"""
@@ -23,6 +42,14 @@ def make_case(rng, quick=True, big=None):
         size_dict = {k: (1 if v == 1 else rng.choice(BIG_DIMS)) for k, v in size_dict.items()}
         sd_impl = {k: getattr(np, big)(v) for k, v in size_dict.items()}
     tree = ctg.ContractionTree.from_path(inputs, output, sd_impl, path=path)
+    if prequery:
+        # every reported quantity is asked for BEFORE any index is removed, so that whatever the
+        # tree caches lazily (leaf sizes included) exists and has to be kept right by remove_ind
+        tree.peak_size()
+        tree.contract_stats()
+        tree.max_size()
+        for i in range(len(inputs)):
+            tree.get_size(frozenset([i]))
     # remove (slice / project) a random ordered subset of indices
     present = sorted({ix for t in inputs for ix in t})
     sl = []
@@ -72,7 +99,10 @@ def run(ctx):
     records = []
     for ci in range(ncases):
         big = ("int64", "uint64", "int32", "int64")[(ci // 8) % 4] if ci % 8 == 5 else None
-        inputs, output, size_dict, path, tree, sl = make_case(rng, ctx.quick, big)
+        prequery = ci % 2 == 0
+        inputs, output, size_dict, path, tree, sl = make_case(rng, ctx.quick, big, prequery)
+        if prequery and sl:
+            ctx.count("queried_before_removal")
         if big:
             ctx.count("numpy_%s_dims" % big)
         feats = gen.net_features(inputs, output, size_dict)
@@ -137,19 +167,7 @@ def run(ctx):
         # peak for a second, non-default order, recomputed independently
         order_scores = {nd: rng.random() for nd in tree.info}
         for order in (None, lambda nd: order_scores[nd]):
-            tot = sum(oracle.prod(size_dict[ix] for ix in oracle.spec_leaf_indices(inputs, output, i, removed))
-                      for i in range(len(inputs)))
-            pk = tot
-            srows = {r[0]: r for r in spec["rows"]}
-            for p, l, r in tree.traverse(order):
-                tot += srows[p][3]
-                pk = max(pk, tot)
-                for c in (l, r):
-                    if len(c) == 1:
-                        (i,) = c
-                        tot -= oracle.prod(size_dict[ix] for ix in oracle.spec_leaf_indices(inputs, output, i, removed))
-                    else:
-                        tot -= srows[c][3]
+            pk = spec_peak(tree, inputs, output, size_dict, removed, spec["rows"], order)
             if tree.peak_size(order) != pk:
                 bad = "peak differs: impl %r spec %r" % (tree.peak_size(order), pk)
         # ---- shapes actually produced while contracting ---------------------
@@ -202,6 +220,11 @@ def run(ctx):
                         sp = oracle.spec_costs(inputs, output, size_dict, gen.tree_nested(tt), [a for a, _ in rem],
                                                [a for a, b in rem if b is not None])
                         st = tt.contract_stats()
+                        pk2 = spec_peak(tt, inputs, output, size_dict, [a for a, _ in rem], sp["rows"])
+                        if tt.peak_size() != pk2:
+                            bad = "after a non-inplace change of a copy, %s reports peak %r but the definition gives %r" % (
+                                "the copy" if tt is t2 else "the original", tt.peak_size(), pk2)
+                            rec = dict(rec, then=("restore_ind" if len(rem2) < len(sl) else "remove_ind", ix2))
                         if (sp["flops"], sp["write"], sp["size"]) != (st["flops"], st["write"], st["size"]) \
                                 or tt.max_size() != sp["size"]:
                             bad = "after a non-inplace change of a copy, %s reports %r (max_size %r) but the definition gives %r" % (
